@@ -149,6 +149,7 @@ let validate_trace (lines : string list) (inherited : int) : string =
   let top = ref (-1) in
   let nev = ref 0 in
   let err = ref None in
+  let max_jl = ref 0 in      (* max over the accepted states of J - L: scripts not blocked inside a nested redo *)
   let zi = z_of_int and iz = int_of_z in
   let fail k l msg = if !err = None then err := Some (Printf.sprintf "REJECT line %d (%s): %s" k l msg) in
   List.iteri (fun k l ->
@@ -167,6 +168,7 @@ let validate_trace (lines : string list) (inherited : int) : string =
               | Some s' ->
                   incr nev;
                   st := Some s';
+                  if iz s'.j - iz s'.l > !max_jl then max_jl := iz s'.j - iz s'.l;
                   if check_after then
                     (match find (zi pid) s'.procs with
                      | Some p -> if iz p.my <> my || iz p.ch <> ch then
@@ -208,7 +210,7 @@ let validate_trace (lines : string list) (inherited : int) : string =
   match !err with
   | Some e -> e
   | None -> (match !st with
-             | Some s -> Printf.sprintf "OK events=%d Q=%d T=%d C=%d J=%d L=%d procs=%d" !nev (iz (q s)) (iz s.t) (iz s.c) (iz s.j) (iz s.l) (List.length s.procs)
+             | Some s -> Printf.sprintf "OK events=%d Q=%d T=%d C=%d J=%d L=%d procs=%d maxJL=%d" !nev (iz (q s)) (iz s.t) (iz s.c) (iz s.j) (iz s.l) (List.length s.procs) !max_jl
              | None -> "EMPTY")
 
 (* lock / job protocol traces (Sched/Locks.v) *)
